@@ -12,7 +12,7 @@ use std::ffi::CString;
 pub const INFO: CheckInfo = CheckInfo {
     prop: "C18",
     level: "fault_enumeration",
-    rule: "fault enumeration: a set of API call histories (init/calls/end, copy mid-stream with both streams continued, reset, params, dictionary, failed init, inflateBackInit/End, several streams sharing one allocator; gzopen/gzdopen -> gzbuffer -> read|write|getc|ungetc|puts|seek|flush -> close, reading a gzip / plain / empty / one-byte / two-member / garbage-trailed / truncated file, writing in modes wb / ab / wT / wb9f) is first run with a counting allocator to learn the number N of allocation requests, then re-run once for EVERY k in [0,N) with only request k failing and once for every k with all requests from k on failing. Oracle: the call during which a request failed reports Z_MEM_ERROR (a NULL gz handle / error return for gz calls); End on the faulted z_stream is safe and re-initialisation works; at the end every block has been released exactly once with the right opaque and nothing else was released (guard-paged allocator, freed blocks unmapped so any use-after-free faults; byte-balanced global allocator for the gz layer); a bystander stream created before the fault produces the same output as when run alone. distinct_nontrivial = distinct (history, fault plan, per-step status) outcomes.",
+    rule: "fault enumeration: a set of API call histories (init/calls/end, copy mid-stream with both streams continued, reset, params, dictionary, failed init, inflateBackInit/End, several streams sharing one allocator, streams given only one of zalloc/zfree; gzopen/gzdopen -> gzbuffer -> read|write|getc|ungetc|puts|seek|flush -> close, reading a gzip / plain / empty / one-byte / two-member / garbage-trailed / truncated file, writing in modes wb / ab / wT / wb9f) is first run with a counting allocator to learn the number N of allocation requests, then re-run once for EVERY k in [0,N) with only request k failing and once for every k with all requests from k on failing. Oracle: the call during which a request failed reports Z_MEM_ERROR (a NULL gz handle / error return for gz calls); End on the faulted z_stream is safe and re-initialisation works; at the end every block has been released exactly once with the right opaque and nothing else was released (guard-paged allocator, freed blocks unmapped so any use-after-free faults; byte-balanced global allocator for the gz layer); a bystander stream created before the fault produces the same output as when run alone. distinct_nontrivial = distinct (history, fault plan, per-step status) outcomes.",
     assumptions: &["histories outside the enumerated set and simultaneous multiple independent failures other than 'all from k on' are not covered", "the gz layer uses the Rust global allocator, which the harness wraps (counting, failing, byte balance) for the duration of a history"],
     bound_quick: "about 70 C-API histories; gz: every history of <= 2 operations over 10 read / 9 write operations x 7 file contents / 4 open modes x {by fd, by path}; every fail-at-k and fail-from-k",
     bound_thorough: "gz histories of <= 3 operations; the same histories with more configurations and longer call lists",
@@ -574,6 +574,85 @@ pub fn run(ctx: &mut Ctx) {
                         key.push(from as u32);
                         c.outcome(hash_u32s(&key));
                         c.state(hash_u32s(&[r.rets.iter().filter(|&&x| x == Z_MEM_ERROR).count() as u32, from as u32]));
+                        c.validated();
+                        Ok(())
+                    },
+                );
+            }
+        }
+    }
+    // a caller that supplies only ONE of zalloc / zfree (zlib fills the other in with its default): whatever the
+    // library takes from the caller's zalloc must come back through the caller's zfree with the caller's opaque,
+    // nothing else may be handed to the caller's zfree, across init / calls / copy / End of each kind of stream
+    for kind in ["deflate", "inflate", "inflateBack"] {
+        for only_alloc in [true, false] {
+            for with_copy in [false, true] {
+                if kind == "inflateBack" && with_copy {
+                    continue;
+                }
+                ctx.case(
+                    "partial-allocator",
+                    || format!("{kind}: stream with only {} supplied ; init ; one call{} ; End", if only_alloc { "zalloc" } else { "zfree" }, if with_copy { " ; copy ; End of the copy" } else { "" }),
+                    |c| unsafe {
+                        c.exec();
+                        let mut s = Strm::guarded(0x6E);
+                        if only_alloc {
+                            s.z.zfree = None;
+                        } else {
+                            s.z.zalloc = None;
+                        }
+                        let window = env.aux.at_end(1 << 9);
+                        let r = match kind {
+                            "deflate" => Rs::deflateInit2_(s.p(), 6, 8, 9, 1, 0, Rs::zlibVersion(), STREAM_SIZE),
+                            "inflate" => Rs::inflateInit2_(s.p(), 15, Rs::zlibVersion(), STREAM_SIZE),
+                            _ => Rs::inflateBackInit_(s.p(), 9, window, Rs::zlibVersion(), STREAM_SIZE),
+                        };
+                        if r != Z_OK {
+                            return Err(format!("init returned {}", rc_name(r)));
+                        }
+                        let pin = env.ain.put(&plain[..200], true);
+                        let pout = env.aout.at_end(4096);
+                        s.z.next_in = pin;
+                        s.z.avail_in = 200;
+                        s.z.next_out = pout;
+                        s.z.avail_out = 4096;
+                        match kind {
+                            "deflate" => {
+                                Rs::deflate(s.p(), Z_SYNC_FLUSH);
+                            }
+                            "inflate" => {
+                                Rs::inflate(s.p(), Z_NO_FLUSH);
+                            }
+                            _ => {}
+                        }
+                        let mut d = Strm::plain();
+                        if with_copy {
+                            let r = if kind == "deflate" { Rs::deflateCopy(d.p(), s.p()) } else { Rs::inflateCopy(d.p(), s.p()) };
+                            if r != Z_OK {
+                                return Err(format!("copy returned {}", rc_name(r)));
+                            }
+                        }
+                        let e = match kind {
+                            "deflate" => Rs::deflateEnd(s.p()),
+                            "inflate" => Rs::inflateEnd(s.p()),
+                            _ => Rs::inflateBackEnd(s.p()),
+                        };
+                        if e != Z_OK && !(kind == "deflate" && e == Z_DATA_ERROR) {
+                            return Err(format!("End returned {}", rc_name(e)));
+                        }
+                        if with_copy {
+                            if kind == "deflate" {
+                                Rs::deflateEnd(d.p());
+                            } else {
+                                Rs::inflateEnd(d.p());
+                            }
+                        }
+                        let ctl = s.ctl.as_ref().unwrap();
+                        if !ctl.errors.is_empty() || !ctl.live.is_empty() || ctl.total_allocs != ctl.total_frees {
+                            return Err(format!("caller's allocator after End: {} blocks taken, {} returned, {} still held; errors {:?}", ctl.total_allocs, ctl.total_frees, ctl.live.len(), ctl.errors));
+                        }
+                        c.outcome(mix(ctl.total_allocs, only_alloc as u64));
+                        c.nontrivial();
                         c.validated();
                         Ok(())
                     },
